@@ -860,6 +860,19 @@ class Enumerator:
             return None
         if isinstance(prim, (ast.List, ast.Tuple)):
             return const_truth(prim)
+        if isinstance(prim, ast.Name) and prim.id not in self.__dict__.get(
+                '_comp_accs', ()) and isinstance(self.defs.get(prim.id), (
+                    ast.ListComp, ast.SetComp, ast.DictComp)):
+            # a filter-free comprehension is empty exactly when its source is
+            d = self.defs[prim.id]
+            if len(d.generators) == 1 and not d.generators[0].ifs:
+                return self._iter_truth(d.generators[0].iter, st)
+            return None
+        if isinstance(prim, ast.Call) and isinstance(
+                prim.func, ast.Name) and prim.func.id in (
+                    'list', 'tuple', 'sorted', 'set', 'frozenset') and len(
+                        prim.args) == 1 and not prim.keywords:
+            return self._iter_truth(prim.args[0], st)
         if not (isinstance(prim, ast.Name) and prim.id.startswith('SYM_m')):
             return None
         grown = False
@@ -2037,6 +2050,23 @@ class Enumerator:
                 ast.copy_location(loop, node)
                 yield from self._for(loop, s, handlers)
             return
+        if isinstance(node.iter, ast.Call) and not getattr(
+                node, '_pv_evaluated', False) and (
+                    self.inline is not None or self.closures):
+            it0 = subst(node.iter, st.env)
+            if isinstance(it0, ast.Call) and self._inline_target(
+                    it0) is not None and len(self._stack) <= self.max_depth:
+                # the iterable is the result of a helper: evaluate it first
+                for s, v, rs in self.eval_value(node.iter, st, handlers):
+                    if rs is not None:
+                        yield s, rs
+                        continue
+                    loop = ast.For(target=node.target, iter=v,
+                                   body=node.body, orelse=node.orelse)
+                    ast.copy_location(loop, node)
+                    loop._pv_evaluated = True
+                    yield from self._for(loop, s, handlers)
+                return
         s0 = st.fork()
         it = subst(node.iter, s0.env)
         if self.unroll and isinstance(it, ast.Name) and it.id.startswith(
